@@ -89,8 +89,8 @@ inductive AttrVal where
   | bareType
   /-- a parameterised generic such as `list[int]` -/
   | generic
-  /-- a PEP 604 union of bare types such as `int | str` (`types.UnionType`): neither a `type` nor a
-      "generic" for the guard -/
+  /-- a PEP 604 union of bare types such as `int | str` (`types.UnionType`); refused like the other
+      bare types since /repo 173578d -/
   | union
   /-- anything else (number, string, function …) -/
   | other
@@ -438,6 +438,7 @@ def nameCheck (p : String × SrcEntry) : R Unit :=
 def isBareType : AttrVal → Bool
   | .bareType => true
   | .generic => true
+  | .union => true
   | _ => false
 
 /-- "assigned a non-Typedpy type" -/
